@@ -6,6 +6,7 @@
 -/
 import FordModel.Fixed
 import FordModel.FixedSpec
+import FordModel.FixedTree
 import FordModel.Reader
 import FordModel.Lemmas.Fixed
 import FordModel.Generated.C14
@@ -25,9 +26,11 @@ theorem model_constants_match_source :
     Gen.ompSentinel = ['$', 'o', 'm', 'p'] ∧ Gen.notContChar = ['0'] ∧
     excessMark sourceVariant = Gen.excessLiteral := by
   refine ⟨fun c => ?_, by decide, by decide, by decide, by decide, by decide, by decide, by decide⟩
-  have h : Gen.commentChars = ['c', 'C', '*', '!'] := by decide
+  -- the table is derived by probing, in code-point order: compare as sets
+  have h : Gen.commentChars = ['!', '*', 'C', 'c'] := by decide
   rw [h]
-  simp only [commentHead, List.contains_cons, List.contains_nil, Bool.or_false, Bool.or_assoc]
+  simp only [commentHead, List.contains_cons, List.contains_nil, Bool.or_false]
+  cases c == 'c' <;> cases c == 'C' <;> cases c == '*' <;> cases c == '!' <;> rfl
 
 /-- The converter is line-for-line: whatever the input (junk included),
     whichever limit setting and whichever variant of the code, `convertToFree` yields exactly one output line per
@@ -372,5 +375,92 @@ theorem sequence_field_bang_repaired :
 theorem doc_past_col72_witness_repaired :
     (analyse Variant.repaired true ("      x = 1 !! d".toList ++ List.replicate 56 'o' ++ "c tail\n".toList)).conv
       = "x = 1 !! d".toList ++ List.replicate 56 'o' ++ "      ! c tail\n".toList := by decide
+
+/-- **Documentation marks in comment lines of every style** (round 5, class of seed m10).
+    A line whose column 1 is `c`, `C`, `*` or `!` is a documentation line for a mark - any
+    mark: `docmark`, `predocmark`, the alternative marks, a customised one, of any length -
+    exactly when the mark stands in columns 2 and following, precisely as for the free-form
+    line `!` + the same text: the reader's mark scanner finds the converted line at index 0
+    iff the text behind column 1 starts with the mark, and never anywhere else.  So `C*`,
+    `c|`, `*>`, `C<` lines document what `!*`, `!|`, `!>`, `!<` document. -/
+theorem comment_line_doc_mark_any_style (v : Variant) (lim : Bool) (c : Char) (rest mark : Str)
+    (hc : commentHead (some c) = true) (ho : lower (rest.take 4) ≠ ['$', 'o', 'm', 'p']) :
+    comScan mark (analyse v lim (c :: rest)).conv = comScan mark ('!' :: rest) ∧
+    comScan mark (analyse v lim (c :: rest)).conv = (if startsWith rest mark then some 0 else none) := by
+  rw [(comment_line_any_style v lim c rest hc ho).1]
+  simp [comScan, comScanAux]
+
+/-- non-vacuity: `C* text` is found by the alternative mark `*`, `C text` by no mark -/
+example : comScan ['*'] (analyse Variant.repaired true "C* sub-diagonal\n".toList).conv = some 0 ∧
+    comScan ['*'] (analyse Variant.repaired true "C  first element\n".toList).conv = none ∧
+    comScan ['<'] (analyse Variant.asIs false "*< custom\n".toList).conv = some 0 := by decide
+
+/-- **Included files are read in the same form and with the same column-72 setting** (round 5,
+    class of seed m7).  `FortranReader.include` reads the named file with a nested reader that
+    gets the including reader's `fixed` and `length_limit` (`readFixedTree`: the converter with the
+    same limit in front of every reader of the tree).  Hence for every tree of well-formed
+    fixed-form files - any include depth, any number of include lines wherever `include()`
+    looks at them, either limit setting, every variant of the code, every set of marks - reading
+    the fixed-form tree gives exactly what reading the tree of the equivalent free-form files
+    gives: each include statement is replaced by the items of the equivalent free-form file,
+    lines beyond column 72 of an included file kept when the limit is off and cut when it is on,
+    exactly as in the including file. -/
+theorem include_tree_same_form_and_limit (c : Include.Cfg) (v : Variant) (lim : Bool) (m : Marks)
+    (ps : List (Str × List Item)) (hwf : ∀ f ∈ ps, WF v f.2) (main : List Item) (hmain : WF v main)
+    (depth : Nat) :
+    readFixedTree c v lim m (ps.map fun f => (f.1, renderFixed f.2)) depth (renderFixed main) =
+      readFreeTree c m (ps.map fun f => (f.1, renderFree v lim f.2)) depth (renderFree v lim main) := by
+  simp only [readFixedTree, readFreeTree, fixedView, freeView, List.map_map]
+  rw [convertToFree_simulation v lim main hmain]
+  congr 1
+  apply List.map_congr_left
+  intro f hf
+  simp only [Function.comp]
+  rw [convertToFree_simulation v lim f.2 (hwf f hf)]
+
+/-- non-vacuity: limit off, the included file has a declaration that runs beyond column 72 -
+    the fixed-form tree yields the whole line, as the free-form tree does -/
+example :
+    (readFixedTree ⟨true, true, true, true⟩ Variant.repaired false Marks.default
+      [("w.inc".toList, [("      integer n_alpha, n_beta" ++ String.ofList (List.replicate 40 ' ') ++ ", n_theta\n").toList])]
+      3 ["      include 'w.inc'\n".toList, "      x = 1\n".toList]).toOption
+    = some [("integer n_alpha, n_beta" ++ String.ofList (List.replicate 40 ' ') ++ ", n_theta").toList, "x = 1".toList] := by
+  decide
+
+/-- **The form is chosen by the extension: every fixed-form extension is read in fixed form**
+    (round 5, class of seed m8).  Whatever the two extension lists are - also when an extension
+    stands in both, which is what `ProjectSettings.__post_init__` produces for the preprocessed
+    fixed-form extensions - a file whose extension is a fixed-form extension is parsed, and in
+    fixed form; a file is parsed in free form only if its extension is not a fixed-form one. -/
+theorem fixed_extension_selects_fixed_form (extensions fixedExtensions : List Str) (ext : Str) :
+    (ext ∈ fixedExtensions → sourceForm extensions fixedExtensions ext = some true) ∧
+    (sourceForm extensions fixedExtensions ext = some false → ext ∉ fixedExtensions ∧ ext ∈ extensions) := by
+  constructor
+  · intro h
+    simp [sourceForm, h]
+  · intro h
+    simp only [sourceForm] at h
+    split at h
+    · rename_i hmem
+      have hf : fixedExtensions.contains ext = false := by simpa using h
+      have hnot : ext ∉ fixedExtensions := by simpa using hf
+      refine ⟨hnot, ?_⟩
+      have : ext ∈ extensions ++ fixedExtensions := by simpa using hmem
+      rcases List.mem_append.mp this with h1 | h2
+      · exact h1
+      · exact absurd h2 hnot
+    · cases h
+
+/-- **... in particular with the extension lists of a default project**, regenerated from
+    `ProjectSettings()` on every run: each of its fixed-form extensions selects the fixed form,
+    although some of them (the preprocessed ones) are also in the effective free-form list. -/
+theorem default_fixed_extensions_select_fixed_form :
+    ∀ ext ∈ Gen.fixedExtensions, sourceForm Gen.extensions Gen.fixedExtensions ext = some true :=
+  fun ext h => (fixed_extension_selects_fixed_form Gen.extensions Gen.fixedExtensions ext).1 h
+
+/-- non-vacuity: an extension in both lists (the `.F` trap), one in neither -/
+example : sourceForm ["F".toList, "f90".toList] ["f".toList, "F".toList] "F".toList = some true ∧
+    sourceForm ["F".toList, "f90".toList] ["f".toList, "F".toList] "f90".toList = some false ∧
+    sourceForm ["F".toList, "f90".toList] ["f".toList, "F".toList] "txt".toList = none := by decide
 
 end Ford.C14
